@@ -19,6 +19,7 @@ class Event:
         self.node = node
         self.loops = tuple(loops)
         self.guards = tuple(guards)
+        self.trys = ()              # enclosing `try` statements whose BODY contains the event
         self.__dict__.update(kw)
 
     def __repr__(self):
@@ -125,6 +126,7 @@ class Flow:
 
     def ev(self, kind, node, **kw):
         e = Event(kind, node, self.loops, self.guards, stmt=self._cur_stmt, **kw)
+        e.trys = tuple(getattr(self, '_trys', ()))
         self.events.append(e)
         return e
 
@@ -132,8 +134,132 @@ class Flow:
         return [e for e in self.events if e.kind == kind]
 
     def _on_call(self, node, name, recv, args, kw, recv_rf=None):
+        frf = self.env.get(node.func.id) if isinstance(node.func, ast.Name) else None
         self.ev('call', node, name=name, recv=recv, args=args, kw=dict(kw),
-                fn=dotted(node.func), recv_rf=recv_rf)
+                fn=dotted(node.func), recv_rf=recv_rf, func_rf=frf if isinstance(frf, RF) else None)
+        return self._inline(node, name, recv, args, kw)
+
+    # ------------------------------------------------------------------
+    # Calls to functions that did not exist in the reviewed tree (rules/known_functions.json) are followed:
+    # their statements are analysed as if written at the call site (parameters bound to the actual arguments,
+    # events recorded under the caller's loops and guards, the returned expression substituted), so that
+    # extracting a helper from an anchored function does not hide the code from the rules.  Functions that the
+    # rules were written against stay opaque calls.
+    MAX_INLINE_DEPTH = 3
+
+    def _new_helper(self, node, name, recv):
+        ix = getattr(self, 'ix', None)
+        known = getattr(self, 'known', None)
+        if ix is None or known is None or name is None or getattr(self, '_depth', 0) >= self.MAX_INLINE_DEPTH:
+            return None, False
+        g, bound = None, False
+        f = self.func
+        d = dotted(node.func)
+        if recv is None and d is not None and '.' not in d:
+            if d in self.env:
+                return None, False
+            r = ix.resolve_name(f.module, d)
+            if r is None and f.parent is not None:
+                r = None
+            if hasattr(r, 'qualname') and hasattr(r, 'node') and not hasattr(r, 'methods'):
+                g = r
+        elif d is not None and d.split('.')[0] in ('self', 'cls') and d.count('.') == 1 and f.cls is not None:
+            g = ix.lookup_method(f.cls, name)
+            bound = True
+            if g is not None:
+                for c in ix.subclasses(g.cls, strict=True):
+                    if name in c.methods:
+                        return None, False          # overridden somewhere: not a unique callee
+        if g is None or g.site in known or g.node is f.node:
+            return None, False
+        decs = [x for x in g.decorators() if x not in ('staticmethod', 'classmethod')]
+        if decs:
+            return None, False
+        if bound and 'staticmethod' in g.decorators():
+            bound = False
+        a = g.node.args
+        if a.vararg or a.kwarg or a.kwonlyargs or a.posonlyargs:
+            return None, False
+        for n in ast.walk(g.node):
+            if isinstance(n, (ast.Yield, ast.YieldFrom, ast.Await)):
+                return None, False
+        return g, bound
+
+    def _inline(self, node, name, recv, args, kw):
+        g, bound = self._new_helper(node, name, recv)
+        if g is None:
+            return None
+        t = self.tab
+        names = g.params()
+        if bound and names:
+            names = names[1:]
+        if len(args) > len(names):
+            return None
+        env = {}
+        for n_, v in zip(names, args):
+            env[n_] = v
+        for k, v in kw:
+            if k not in names or k in env:
+                return None
+            env[k] = v
+        defs = g.node.args.defaults
+        for n_, dflt in zip(names[len(names) - len(defs):] if defs else [], defs):
+            if n_ not in env:
+                env[n_] = Conv(t, {}, self.conv.canon).expr(dflt)
+        if any(n_ not in env for n_ in names):
+            return None
+        for k, v in self.env.items():
+            if k.startswith('@'):
+                env[k] = v
+        child = Flow(g, Conv(t, env, self.conv.canon))
+        child.conv.forward_attrs = getattr(self.conv, 'forward_attrs', False)
+        child.conv.erase_broadcast = self.conv.erase_broadcast
+        child.ix, child.known = self.ix, self.known
+        child._depth = getattr(self, '_depth', 0) + 1
+        child._nloop = self._nloop + 100 * child._depth
+        child._nalloc = {}
+        child._alloc_prefix = '%s%s.' % (getattr(self, '_alloc_prefix', ''), g.name)
+        try:
+            child.run()
+        except AnalysisError:
+            return None
+        pl, pg = tuple(self.loops), tuple(self.guards)
+        pt = tuple(getattr(self, '_trys', ()))
+        rets = []
+        for e in child.events:
+            e.inlined = g.qualname
+            if e.kind == 'return':
+                rets.append(e)
+                continue
+            e.loops = pl + e.loops
+            e.guards = pg + e.guards
+            e.trys = pt + e.trys
+            self.events.append(e)
+        for k, v in child.env.items():
+            if k.startswith('@'):
+                self.env[k] = v
+        self.inlined = getattr(self, 'inlined', [])
+        self.inlined.append(g.site)
+        # the value of the call
+        none = t.atom('const', ('None',))
+        if not rets:
+            return none
+        if any(r.loops for r in rets):
+            return None
+        val = None
+        for r in reversed(rets):
+            pcs = [x for x in r.guards if not x.early and x.rf is not None]
+            ecs = [x for x in r.guards if x.early and x.rf is not None]
+            v = r.value if r.value is not None else none
+            if not pcs:
+                val = v if val is None or not ecs else val if False else v
+                continue
+            if val is None:
+                val = none
+            for x in reversed(pcs):
+                v = t.atom('guard', (x.rf, v, val) if x.positive else (x.rf, val, v))
+            val = v
+        return val
 
     def expr(self, n):
         return self.conv.expr(n)
@@ -227,7 +353,8 @@ class Flow:
         are two buffers even when their shapes are equal)."""
         self._nalloc = getattr(self, '_nalloc', {})
         self._nalloc[name] = self._nalloc.get(name, 0) + 1
-        return self.tab.atom('alloc', (value_rf, '%s#%d' % (name, self._nalloc[name])))
+        return self.tab.atom('alloc', (value_rf, '%s%s#%d' % (getattr(self, '_alloc_prefix', ''), name,
+                                                               self._nalloc[name])))
 
     def is_alloc(self, rf):
         a = rf.single_atom()
@@ -406,7 +533,9 @@ class Flow:
             self.block(s.body)
         elif isinstance(s, ast.Try):
             self.ev('try', s)
+            self._trys = list(getattr(self, '_trys', [])) + [s]
             self.block(s.body)
+            self._trys = self._trys[:-1]
             env_after = dict(self.env)
             for h in s.handlers:
                 self.guards.append(Guard(None, True, t.atom(
